@@ -428,6 +428,13 @@ fn casts(v: &RVal, b: &[u8], acc: &mut Acc) {
     if !to_s_ok {
         bad.push("to_str");
     }
+    // ... and, for a number, exactly the text the decoded tree's number displays as
+    if let (RVal::Num(_), Some(y)) = (v, &to_s) {
+        let tree_text = guard(|| jsonb::from_slice(b).ok().and_then(|t| t.as_number().map(|n| format!("{}", n)))).ok().flatten();
+        if tree_text.as_deref() != Some(y.as_str()) {
+            bad.push("to_str-differs-from-the-decoded-number's-text");
+        }
+    }
     if !bad.is_empty() {
         acc.vio(&format!("casts:wrong:{}", bad.join("+")), || json!({"ctx": ctxv(), "to_bool": to_bool, "to_i64": to_i, "to_u64": to_u, "to_f64": to_f, "to_str": to_s, "as_str": as_s}));
     }
